@@ -296,6 +296,57 @@ def to_events(raw, keys, cols):
     return evs
 
 
+def run_threaded(per_thread_ops, switch=1e-6):
+    """the operations of each thread run concurrently (barrier start, tiny switch interval); events merged in completion
+    order.  Meant to be the FIRST use of the library in a fresh interpreter (lazy initialisers race here)."""
+    import threading
+    sys.setswitchinterval(switch)
+    lock = threading.Lock()
+    merged = []
+    barrier = threading.Barrier(len(per_thread_ops))
+
+    def work(k, ops):
+        barrier.wait()
+        for op in ops:
+            raw = run_ops([op] if op[0] != "fix" else [op], tag=f"thr{k}") if False else None
+        # objects live per thread: run the whole list in one go
+        raw = run_ops(ops, tag=f"thr{k}")
+        with lock:
+            merged.extend(raw)
+
+    th = [threading.Thread(target=work, args=(k, ops)) for k, ops in enumerate(per_thread_ops)]
+    for x in th:
+        x.start()
+    for x in th:
+        x.join()
+    sys.setswitchinterval(0.005)
+    return merged
+
+
+def run_fresh_threaded(per_thread_ops, hashseed="0"):
+    e = dict(os.environ)
+    e["PYTHONHASHSEED"] = str(hashseed)
+    e["PYTHONPATH"] = os.path.join(vlib.REPO, "src")
+    p = subprocess.run([sys.executable, os.path.abspath(__file__), "threads"], input=json.dumps(per_thread_ops), text=True,
+                       capture_output=True, env=e, timeout=900)
+    if p.returncode != 0:
+        raise vlib.MachineryError("fresh threaded interpreter failed: " + p.stderr[-2000:])
+    return json.loads(p.stdout.strip().splitlines()[-1])
+
+
+if __name__ == "__main__" and len(sys.argv) > 1 and sys.argv[1] == "threads":
+    per_thread = json.loads(sys.stdin.read())
+    d = tempfile.mkdtemp(prefix="verif_fresh_")
+    os.chdir(d)
+    try:
+        res = run_threaded(per_thread)
+    finally:
+        os.chdir("/")
+        import shutil
+        shutil.rmtree(d, ignore_errors=True)
+    sys.stdout.write("\n" + json.dumps(res) + "\n")
+    sys.exit(0)
+
 if __name__ == "__main__":
     ops = json.loads(sys.stdin.read())
     d = tempfile.mkdtemp(prefix="verif_fresh_")
